@@ -354,6 +354,17 @@ func checkCase(c *core.Child, r *core.RNG, k *kase) {
 	for _, f := range a.order {
 		c.Feature(f)
 	}
+	if a.invalidUTF8 != "" {
+		// Don't-care: a string value of the AST is not valid UTF-8 (not text). In
+		// dialect-valid input this only comes from the lexer's block-string defect
+		// (the first line is cut at a byte offset, through a multi-byte
+		// character). Crash / shape / no-mutation only.
+		c.DontCare("ast-string-not-valid-utf8(lexer-block-string-cut)")
+		if v := shapeLaws(c, doc); v != nil {
+			violation(c, v.sig, v.msg, caseDetail(k, v, map[string]interface{}{"note": "string value at " + a.invalidUTF8 + " is not valid UTF-8"}))
+		}
+		return
+	}
 	if a.nontrivial() {
 		c.Nontrivial(core.HashString(k.canon))
 	}
